@@ -58,14 +58,20 @@ def _accessor(R):
                 return dict((dv, n) for dv, n in info[1]["variants"]).get(lab)
         return None
 
-    def kind_of_operand(g, op):
-        """JSON kind established for the value an operand carries: the accessor among its origins"""
+    def kind_of_operand(g, op, depth=6):
+        """JSON kind established for the value an operand carries: the accessor(s) it derives from, through any conversion calls
+        (`as_str()?.to_owned()`, `Vec::with_capacity(as_array()?.len())` + pushes ..)"""
         ks = set()
-        if op.get("k") not in ("copy", "move"):
+        if op.get("k") not in ("copy", "move") or depth == 0:
             return ks
-        for o in F.origins(g, op, depth=14):
-            if o.kind == "call" and short(o.call.name) in KIND_OF_ACCESSOR:
+        for o in F.origins(g, op, depth=14, through_calls=False):
+            if o.kind != "call":
+                continue
+            if short(o.call.name) in KIND_OF_ACCESSOR:
                 ks.add(KIND_OF_ACCESSOR[short(o.call.name)])
+            else:
+                for a in o.call.args:
+                    ks |= kind_of_operand(g, a, depth - 1)
         return ks
 
     sites = []      # (variant produced, block in f, kinds, loc)
